@@ -1,6 +1,7 @@
 // c01probe: run arbitrary operation text against the configuration / universe of a replay file.
-//   c01probe FILE 'query' ['{"vars":..}']      -> verdict, requests
-//   c01probe FILE -plan 'query'                 -> plan
+//
+//	c01probe FILE 'query' ['{"vars":..}']      -> verdict, requests
+//	c01probe FILE -plan 'query'                 -> plan
 package main
 
 import (
